@@ -173,4 +173,102 @@ theorem fe_be_disjoint (a : FeId) (b : BeId) : feTarget a ≠ beTarget b := by
   apply be_not_ends_yml b
   rw [← h, hp, last4_append _ _ (by decide)]
 
+/-! ### no path separator inside a file name -/
+
+theorem hexDigitUpper_not_reserved' : ∀ d, d < 16 → isReservedChar (hexDigitUpper d) = false := by decide
+theorem base32Char_ne_slash' : ∀ d, d < 32 → base32Char d ≠ 0x2F := by decide
+
+theorem mem_escChar (f : Bool) (c x : Nat) (h : x ∈ escChar f c) : x = 0x25 ∨ isReservedChar x = false := by
+  rcases escChar_cases f c with ⟨e, _⟩ | ⟨e, hr⟩ | ⟨e, hr⟩
+  · rw [e] at h
+    simp at h
+    rcases h with h | h | h <;> subst h <;> decide
+  · rw [e] at h
+    simp at h
+    subst h
+    exact Or.inr hr
+  · rw [e] at h
+    have := isReservedChar_lt c hr
+    simp at h
+    rcases h with h | h | h
+    · exact Or.inl h
+    · subst h; exact Or.inr (hexDigitUpper_not_reserved' _ (by omega))
+    · subst h; exact Or.inr (hexDigitUpper_not_reserved' _ (by omega))
+
+theorem mem_escBody (n : List Nat) (x : Nat) (h : x ∈ escBody n) : x = 0x25 ∨ isReservedChar x = false := by
+  cases n with
+  | nil => simp [escBody] at h
+  | cons c r =>
+    rw [escBody, List.mem_append] at h
+    rcases h with h | h
+    · exact mem_escChar true c x h
+    · rw [List.mem_flatMap] at h
+      obtain ⟨y, _, hy⟩ := h
+      exact mem_escChar false y x hy
+
+theorem stf_no_slash (n s : List Nat) (hs : 0x2F ∉ s) : 0x2F ∉ stringToFilename n s := by
+  intro h
+  simp only [stringToFilename, List.mem_append] at h
+  rcases h with (h | h) | h
+  · rcases mem_escBody n _ h with h | h
+    · omega
+    · revert h; decide
+  · rcases caseSuffix_cases n with ⟨e, _⟩ | ⟨e, _⟩
+    · rw [e] at h; simp at h
+    · rw [e] at h
+      simp only [List.mem_cons, List.mem_map] at h
+      rcases h with h | ⟨d, hd, h⟩
+      · omega
+      · exact base32Char_ne_slash' d (codeDigits_lt n d hd) h
+  · exact hs h
+
+theorem mem_joinUnderscore (xs : List (List Nat)) (x : Nat) (h : x ∈ joinUnderscore xs) :
+    x = 0x5F ∨ ∃ y ∈ xs, x ∈ y := by
+  induction xs with
+  | nil => simp [joinUnderscore] at h
+  | cons a r ih =>
+    cases r with
+    | nil =>
+      simp only [joinUnderscore] at h
+      exact Or.inr ⟨a, by simp, h⟩
+    | cons b r' =>
+      simp only [joinUnderscore, List.mem_append, List.mem_cons] at h
+      rcases h with h | h | h
+      · exact Or.inr ⟨a, by simp, h⟩
+      · exact Or.inl h
+      · rcases ih h with h | ⟨y, hy, hxy⟩
+        · exact Or.inl h
+        · exact Or.inr ⟨y, by simp [hy], hxy⟩
+
+theorem fmt2_no_slash (q : Rat) : 0x2F ∉ fmt2 q := by
+  intro h
+  simp only [fmt2, fmtRound2, List.mem_append, List.mem_cons, List.not_mem_nil, or_false] at h
+  rcases h with (h | h) | h
+  · split at h <;> simp at h
+  · have := decDigits_digits _ _ h
+    omega
+  · omega
+
+def Tag.noSlash (t : Tag) : Prop := t.b0 ≠ 0x2F ∧ t.b1 ≠ 0x2F ∧ t.b2 ≠ 0x2F ∧ t.b3 ≠ 0x2F
+
+theorem kernFileName_no_slash (l : Loc) (p : l.printable) (hn : ∀ e ∈ l, e.1.noSlash) :
+    0x2F ∉ kernFileName l := by
+  intro h
+  simp only [kernFileName, List.mem_append] at h
+  rcases h with (h | h) | h
+  · revert h; decide
+  · rcases mem_joinUnderscore _ _ h with h | ⟨y, hy, hxy⟩
+    · omega
+    · rw [List.mem_map] at hy
+      obtain ⟨e, he, rfl⟩ := hy
+      simp only [kernEntry, List.mem_append, List.mem_cons] at hxy
+      rcases hxy with hxy | hxy | hxy
+      · rw [render_printable _ (p e he)] at hxy
+        obtain ⟨h0, h1, h2, h3⟩ := hn e he
+        simp at hxy
+        omega
+      · omega
+      · exact fmt2_no_slash _ hxy
+  · revert h; decide
+
 end Fontc.Paths
